@@ -258,19 +258,19 @@ class Date:
         return self.__add__(other)
 
     def __gt__(self, other):
-        return self._mjd > other._mjd
+        return self._datetime > other._datetime
 
     def __ge__(self, other):
-        return self._mjd >= other._mjd
+        return self._datetime >= other._datetime
 
     def __lt__(self, other):
-        return self._mjd < other._mjd
+        return self._datetime < other._datetime
 
     def __le__(self, other):
-        return self._mjd <= other._mjd
+        return self._datetime <= other._datetime
 
     def __eq__(self, other):
-        return self._mjd == other._mjd
+        return self._datetime == other._datetime
 
     def __repr__(self):  # pragma: no cover
         return f"<{self.__class__.__name__} '{self}'>"
@@ -287,7 +287,7 @@ class Date:
             return str(self)
 
     def __hash__(self):
-        return hash((self._d, self._s))
+        return hash(self._datetime)
 
     @classmethod
     def _convert_dt(cls, dt):
